@@ -1,8 +1,12 @@
 pub assume_specification<T, F: FnOnce(T) -> bool>[Option::<T>::is_some_and](o: Option<T>, f: F) -> (r: bool)
   requires o is Some ==> f.requires((o->0,)),
   ensures o is None ==> !r, o is Some ==> f.ensures((o->0,), r);
+pub open spec fn bytes_as_chars(b: Seq<u8>) -> Seq<char> { Seq::new(b.len(), |i: int| b[i] as char) }
+// unsafe fn: the `requires` is its documented safety precondition restricted to what the call sites need
+// (ASCII is valid UTF-8); the `ensures` is the identity on ASCII.
 pub assume_specification[String::from_utf8_unchecked](v: Vec<u8>) -> (s: String)
-  requires forall|i: int| 0 <= i < v@.len() ==> v@[i] < 128;
+  requires forall|i: int| 0 <= i < v@.len() ==> v@[i] < 128,
+  ensures s@ == bytes_as_chars(v@);
 pub assume_specification<T: Default>[std::mem::take](x: &mut T) -> (r: T)
   ensures r == *old(x);
 pub proof fn lemma_vlq_wire(n: nat)
@@ -39,3 +43,27 @@ pub proof fn lemma_enc_bytes_wire(s: ES, m: Mapping) ensures all_wire(enc_bytes(
 
 pub proof fn lemma_fld_plus1(x: u32) requires x < lim() ensures fld((x + 1) as u32, x) == seq![67u8]
 { assert(zz(x as int + 1, x as int) == 2); reveal_with_fuel(vlq_digits, 2); assert(vlq_digits(2) =~= seq![67u8]); }
+
+pub proof fn lemma_semis_push(b: Seq<u8>, i: nat) ensures b + semis(i) + seq![59u8] == b + semis(i + 1)
+{ assert(b + semis(i) + seq![59u8] =~= b + semis(i + 1)); }
+pub proof fn lemma_fld_same_all() ensures forall|x: u32| #[trigger] fld(x, x) == seq![65u8]
+{ assert forall|x: u32| #[trigger] fld(x, x) == seq![65u8] by { lemma_fld_same(x); } }
+pub proof fn lemma_enc_facts(s: ES, m: Mapping)
+  ensures forall|x: u32| #[trigger] fld(x, x) == seq![65u8]
+{ lemma_fld_same_all(); }
+pub proof fn lemma_lines_facts(l0: LS, m: Mapping)
+  requires ls_inv(l0)
+  ensures
+    !lines_skip(l0, m) ==> !dropped(es_of(l0), l_of(m)),
+    forall|x: u32| #[trigger] fld(x, x) == seq![65u8],
+    fld((l0.ol + 1) as u32, l0.ol) == seq![67u8],
+{
+  lemma_fld_same_all(); lemma_fld_plus1(l0.ol);
+}
+
+// prefixes of enc_bytes(s, m) used as proof checkpoints in FullMappingsEncoder::encode
+pub open spec fn col0(s: ES, m: Mapping) -> u32 { if s.line < m.generated_line { 0u32 } else { s.col } }
+pub open spec fn pfx1(s: ES, m: Mapping) -> Seq<u8> { sep_bytes(s, m) + fld(m.generated_column, col0(s, m)) }
+pub open spec fn pfx2(s: ES, m: Mapping) -> Seq<u8> { pfx1(s, m) + fld(m.original->0.source_index, s.si) }
+pub open spec fn pfx3(s: ES, m: Mapping) -> Seq<u8> { pfx2(s, m) + fld(m.original->0.original_line, s.ol) }
+pub open spec fn pfx4(s: ES, m: Mapping) -> Seq<u8> { pfx3(s, m) + fld(m.original->0.original_column, s.oc) }
